@@ -1,5 +1,7 @@
 package PKG
 
+import "time"
+
 // Engine-side declarations of the harness vocabulary. Bodies are never executed: gosym intercepts
 // calls to these functions by name (see /verif/engine/gosym/vf.go).
 
@@ -59,3 +61,4 @@ func vfMonitorResult() (badWrites, badReads, writes, reads int) { panic("vf intr
 func vfSpawn() int { panic("vf intrinsic") }
 func vfEnter(g int) { panic("vf intrinsic") }
 func vfExit(g int)  { panic("vf intrinsic") }
+func vfSleep(d time.Duration) { panic("vf intrinsic") }
